@@ -431,9 +431,16 @@ type sqlStmt struct {
 	where   *sqlExpr
 	orderBy *sqlExpr
 	desc    bool
+	more    []sqlOrderKey // further order-by terms (lexicographic)
+	orRepl  bool          // update or replace: a row that collides with an updated row's primary key is deleted
 	limit   *sqlExpr
 	sets    []sqlItem // update: column name in alias, value expr in e
 	agg     bool
+}
+
+type sqlOrderKey struct {
+	e    *sqlExpr
+	desc bool
 }
 
 func (p *Path) sqlParse(src string) *sqlStmt {
@@ -470,6 +477,11 @@ func (p *Path) sqlParse(src string) *sqlStmt {
 	case sp.isKw("update"):
 		sp.pos++
 		st.kind = "update"
+		if sp.isKw("or") {
+			sp.pos++
+			sp.expectKw("replace")
+			st.orRepl = true
+		}
 		sp.next() // table
 		sp.expectKw("set")
 		for {
@@ -499,6 +511,17 @@ func (p *Path) sqlParse(src string) *sqlStmt {
 			st.desc = true
 		} else if sp.isKw("asc") {
 			sp.pos++
+		}
+		for sp.isOp(",") {
+			sp.pos++
+			k := sqlOrderKey{e: sp.expr()}
+			if sp.isKw("desc") {
+				sp.pos++
+				k.desc = true
+			} else if sp.isKw("asc") {
+				sp.pos++
+			}
+			st.more = append(st.more, k)
 		}
 	}
 	if sp.isKw("limit") {
@@ -1310,7 +1333,11 @@ func registerSQL(e *Engine) {
 		}
 		hit := p.selectRows(t, st, params, -1)
 		ni, li := t.col["name"], t.col["linkname"]
+		replaced := map[*StructVal]bool{}
 		for _, r := range hit {
+			if replaced[r] {
+				continue
+			}
 			nr := copyVal(r).(*StructVal)
 			ev := &sqlEnv{p: p, t: t, row: r, params: params}
 			for _, s := range st.sets {
@@ -1332,14 +1359,24 @@ func registerSQL(e *Engine) {
 				}
 				dup := And(StrEq(o.F[ni].(*StrVal), nr.F[ni].(*StrVal)), StrEq(o.F[li].(*StrVal), nr.F[li].(*StrVal)))
 				if p.Branch(dup) {
+					if st.orRepl {
+						replaced[o] = true
+						continue
+					}
 					return TupleVal{NilIface, p.errVal("constraint failed: UNIQUE constraint failed: headers.name, headers.linkname (1555)")}
 				}
 			}
+			var kept []*StructVal
 			for i := range t.rows {
+				if replaced[t.rows[i]] {
+					continue
+				}
 				if t.rows[i] == r {
 					t.rows[i] = nr
 				}
+				kept = append(kept, t.rows[i])
 			}
+			t.rows = kept
 		}
 		return TupleVal{p.sqlResult(int64(len(hit))), NilIface}
 	}
@@ -1468,16 +1505,43 @@ func (p *Path) sqlAggregate(t *sqlTable, st *sqlStmt, params []sqlVal, tptr *Poi
 	return NilIface
 }
 
-// sqlTop handles "order by <expr> desc limit 1": the first row with the maximal key.
+// sqlTop handles "order by <expr> [desc] {, <expr> [desc]} limit 1": the first row (in scan order) whose key tuple
+// is minimal in the lexicographic order of the terms.
 func (p *Path) sqlTop(t *sqlTable, st *sqlStmt, params []sqlVal, alias map[string]*sqlExpr) []*StructVal {
+	ev0 := &sqlEnv{p: p, t: t, params: params}
+	if lim := int64(p.Concretize(ev0.eval(st.limit).i, "sql.limit")); lim != 1 {
+		p.unsupported("sql: order by with limit %d", lim)
+	}
 	rows := p.selectRows(t, st, params, -1)
 	if len(rows) == 0 {
 		return nil
 	}
-	vals := make([]*Term, len(rows))
+	keys := append([]sqlOrderKey{{e: st.orderBy, desc: st.desc}}, st.more...)
+	vals := make([][]*Term, len(rows))
 	for i, r := range rows {
 		ev := &sqlEnv{p: p, t: t, row: r, params: params, alias: alias}
-		vals[i] = ev.eval(st.orderBy).i
+		for _, k := range keys {
+			v := ev.eval(k.e)
+			if v.isText() {
+				p.unsupported("sql: order by a text expression")
+			}
+			vals[i] = append(vals[i], v.i)
+		}
+	}
+	// before(a, b, strict): row a sorts before row b (or, unless strict, has the same key tuple)
+	before := func(a, b int, strict bool) *Term {
+		res := TrueT
+		if strict {
+			res = FalseT
+		}
+		for k := len(keys) - 1; k >= 0; k-- {
+			lt := SLt(vals[a][k], vals[b][k])
+			if keys[k].desc {
+				lt = SLt(vals[b][k], vals[a][k])
+			}
+			res = Or(lt, And(Eq(vals[a][k], vals[b][k]), res))
+		}
+		return res
 	}
 	for i := range rows {
 		c := TrueT
@@ -1485,21 +1549,7 @@ func (p *Path) sqlTop(t *sqlTable, st *sqlStmt, params []sqlVal, alias map[strin
 			if j == i {
 				continue
 			}
-			var better *Term
-			if st.desc {
-				if j < i {
-					better = SLt(vals[j], vals[i])
-				} else {
-					better = SLe(vals[j], vals[i])
-				}
-			} else {
-				if j < i {
-					better = SLt(vals[i], vals[j])
-				} else {
-					better = SLe(vals[i], vals[j])
-				}
-			}
-			c = And(c, better)
+			c = And(c, before(i, j, j < i))
 		}
 		if p.Branch(c) {
 			return []*StructVal{rows[i]}
